@@ -905,6 +905,7 @@ func runC14(c *core.Ctx) core.Meta {
 	_ = pemu
 
 	checkIntegerWidths(c, "R14.16", "Outstanding-access counters are wide enough for what can be in flight.", 2, []widthScope{{rel: wfPkg}, {rel: cuPkg}}, []string{"narrow-counter"}, widthAllowC14)
+	checkRegisterFileOffsetPairing(c, "R14.17")
 	return core.Meta{Level: "other",
 		Explanation: "Structural clauses of execution ordering in the timing compute unit (and the emulator's barrier resolution): completion only with both outstanding-access counters at zero, wait-count comparison pairs, ownership and last-piece guarding of the counters, the accepted-state sets of the barrier predicates evaluated as decision tables and compared with {at barrier, completed}, barrier release only under those predicates, work-group completion message only when all other wavefronts completed, with release of resources only after a successful send.",
 		NotDecided:  "the issue-trace ordering under all memory latencies and occupancies (a schedule property); scoreboard hazards; the SIMM16 bit ranges of the wait-count fields",
